@@ -12,8 +12,10 @@ let optbytes = function None -> "nil" | Some bs -> hex_of_bytes bs
 let cur_h = ref h_sha
 let zh_sha = mk_zh h_sha
 let zh_alt = mk_zh h_alt
+let zh_zwin = mk_zh h_zwin
 let cur_zh = ref zh_sha
 let set_cfg c =
+  if c = "zwin" then (cur_h := h_zwin; cur_zh := zh_zwin) else
   if c = "alt" then (cur_h := h_alt; cur_zh := zh_alt) else (cur_h := h_sha; cur_zh := zh_sha)
 
 (* ---- C16 ---- *)
